@@ -463,7 +463,7 @@ impl World {
         self.sync();
         let m = self.m.borrow();
         let n = m.objs.len();
-        let r = World::reach_at(&m, m.op_index + 1); // nothing is in flight at quiescence: every leak counts
+        let r = World::reach_ext(&m, true); // leaked pointers excuse their targets from reclamation
         let mut s: Vec<bool> = (0..n).map(|i| !r[i] && m.objs[i].status == Status::Live).collect();
         loop {
             // objects kept by an untraced pointer held by a member of S
